@@ -17,8 +17,6 @@ Section EvidenceProofs.
   Notation signer_of := (signer_of resolve).
   Notation ev_step := (ev_step St lg resolve val_exists penalize).
   Notation process_evidences := (process_evidences St lg resolve val_exists penalize).
-  Notation has_zero_penalty := (has_zero_penalty St lg resolve val_exists penalize).
-  Notation zero_penalty_step := (zero_penalty_step St lg resolve val_exists penalize).
   Notation eacc := (eacc St lg).
 
   Definition no_memo : memo := fun _ => None.
@@ -43,14 +41,6 @@ Section EvidenceProofs.
     rewrite (ev_step_cache_free m m'); auto.
   Qed.
 
-  Lemma has_zero_penalty_cache_free : forall m m' parent maxe evs a, memo_valid m -> memo_valid m' ->
-    has_zero_penalty m parent maxe a evs = has_zero_penalty m' parent maxe a evs.
-  Proof.
-    intros m m' parent maxe evs. induction evs as [|e r IH]; intros a Hm Hm'; cbn; [reflexivity|].
-    rewrite (ev_step_cache_free m m'); auto. rewrite IH; auto.
-    unfold Model.zero_penalty_step. rewrite (signer_of_valid m), (signer_of_valid m'); auto.
-  Qed.
-
   (* the part of the accumulator the replay reproduces *)
   Definition core_eq (a b : eacc) : Prop :=
     a_st _ _ a = a_st _ _ b /\ a_seen _ _ a = a_seen _ _ b /\ a_conf _ _ a = a_conf _ _ b /\ a_logs _ _ a = a_logs _ _ b.
@@ -59,35 +49,29 @@ Section EvidenceProofs.
      lands in the same state / seen set / confirmed list / logs *)
   Lemma replay_invariant :
     forall m parent maxe evs (a : eacc) (st0 : St),
-      (* invariant on the start accumulator *)
       core_eq (fold_left (ev_step m parent maxe) (a_conf _ _ a) (mkEacc St lg st0 [] [] [] [])) a ->
-      has_zero_penalty m parent maxe a evs = false ->
       let a' := fold_left (ev_step m parent maxe) evs a in
       core_eq (fold_left (ev_step m parent maxe) (a_conf _ _ a') (mkEacc St lg st0 [] [] [] [])) a'.
   Proof.
-    intros m parent maxe evs. induction evs as [|e r IH]; intros a st0 Hinv Hz; cbn.
+    intros m parent maxe evs. induction evs as [|e r IH]; intros a st0 Hinv; cbn.
     - exact Hinv.
-    - cbn in Hz. apply orb_false_elim in Hz. destruct Hz as [Hz1 Hz2].
-      apply IH; [|exact Hz2].
-      (* the invariant survives one step *)
-      unfold Model.zero_penalty_step in Hz1.
-      unfold Model.ev_step at 2 3. unfold Model.ev_step in Hz2.
+    - apply IH.
+      unfold Model.ev_step at 2 3.
       destruct (e_known e) eqn:Ek; cbn [negb]; [|exact Hinv].
       destruct (e_nsigns e <? 2)%N eqn:En; [exact Hinv|].
+      destruct (e_differ e) eqn:Ed; cbn [negb]; [|exact Hinv].
       destruct (e_round e =? parent)%N eqn:Er.
       + destruct (signer_of m e) as [s|] eqn:Es; [|exact Hinv].
         destruct (existsb (N.eqb s) (a_seen _ _ a)) eqn:Eseen; [exact Hinv|].
         destruct (val_exists (a_st _ _ a) s) eqn:Eex; cbn [negb]; [|exact Hinv].
         destruct (penalize (a_st _ _ a) s) as [[st' total] l] eqn:Ep.
-        cbn in Hz1.
-        assert (Hpos : (0 <? total) = true) by (destruct (0 <? total); [reflexivity | discriminate]).
-        rewrite Hpos. cbn [a_conf].
+        cbn [a_conf].
         rewrite fold_left_app. cbn [fold_left].
         destruct Hinv as (H1 & H2 & H3 & H4).
         set (b := fold_left (ev_step m parent maxe) (a_conf _ _ a) (mkEacc St lg st0 [] [] [] [])) in *.
-        unfold Model.ev_step. rewrite Ek, En, Er, Es. cbn [negb].
-        rewrite H2, Eseen, H1, Eex. cbn [negb]. rewrite Ep, Hpos.
-        repeat split; cbn; congruence.
+        unfold Model.ev_step. rewrite Ek, En, Ed, Er, Es. cbn [negb].
+        rewrite H2, Eseen, H1, Eex. cbn [negb]. rewrite Ep.
+        repeat split; cbn; try congruence. destruct (0 <? total); congruence.
       + (* pending or dropped: state, seen, confirmed, logs unchanged *)
         destruct (parent <? e_round e)%N.
         * destruct Hinv as (H1 & H2 & H3 & H4). repeat split; assumption.
@@ -95,21 +79,19 @@ Section EvidenceProofs.
           destruct Hinv as (H1 & H2 & H3 & H4). repeat split; assumption.
   Qed.
 
-  (* slash data replayed on the same state with the same parent height gives the
-     builder's state and logs, outside the zero-penalty class *)
+  (* the slash data replayed on the same state gives the builder's state and logs *)
   Lemma replay_agrees :
-    forall m m' parent maxe st pool, memo_valid m -> memo_valid m' ->
-      has_zero_penalty m parent maxe (mkEacc St lg st [] [] [] []) pool = false ->
-      let b := slashing St lg resolve val_exists penalize m parent maxe st pool in
-      let v := replay_slashing St lg resolve val_exists penalize m' parent maxe st (a_conf _ _ b) in
+    forall m m' number maxe st pool, memo_valid m -> memo_valid m' ->
+      let b := slashing St lg resolve val_exists penalize m number maxe st pool in
+      let v := replay_slashing St lg resolve val_exists penalize m' number maxe st (a_conf _ _ b) in
       a_st _ _ v = a_st _ _ b /\ a_logs _ _ v = a_logs _ _ b /\ a_conf _ _ v = a_conf _ _ b.
   Proof.
-    intros m m' parent maxe st pool Hm Hm' Hz b v.
+    intros m m' number maxe st pool Hm Hm' b v.
     unfold v, Model.replay_slashing.
     rewrite (process_evidences_cache_free m' m); auto.
     unfold b, Model.slashing, Model.process_evidences.
-    pose proof (replay_invariant m parent maxe pool (mkEacc St lg st [] [] [] []) st) as H.
-    cbn in H. specialize (H (conj eq_refl (conj eq_refl (conj eq_refl eq_refl))) Hz).
+    pose proof (replay_invariant m (number - 1)%N maxe pool (mkEacc St lg st [] [] [] []) st) as H.
+    cbn in H. specialize (H (conj eq_refl (conj eq_refl (conj eq_refl eq_refl)))).
     destruct H as (H1 & H2 & H3 & H4). repeat split; assumption.
   Qed.
 End EvidenceProofs.
@@ -150,13 +132,14 @@ Section BlockProofs.
     intros. unfold Model.end_rest. rewrite (rewards_to_pool_sched_free sc sc'); auto.
   Qed.
 
-  (* determinism: neither the iteration orders nor the cache contents matter *)
+  (* determinism: neither the iteration orders nor the cache contents matter
+     (and the position of the local chain head is not an input at all) *)
   Lemma process_block_deterministic :
-    forall sc sc' m m' head st h, sched_valid sc -> sched_valid sc' ->
+    forall sc sc' m m' st h, sched_valid sc -> sched_valid sc' ->
       memo_valid resolve m -> memo_valid resolve m' ->
-      process_block sc m head st h = process_block sc' m' head st h.
+      process_block sc m st h = process_block sc' m' st h.
   Proof.
-    intros sc sc' m m' head st h Hs Hs' Hm Hm'. unfold Model.process_block.
+    intros sc sc' m m' st h Hs Hs' Hm Hm'. unfold Model.process_block.
     destruct (fold_left _ (h_txs h) _) as [a|]; [|reflexivity].
     destruct (negb (t_rew _ _ _ a =? h_gas_rewards h)); [reflexivity|].
     unfold Model.replay_slashing.
@@ -191,24 +174,17 @@ Section BlockProofs.
       unfold Model.process_step. rewrite E. reflexivity.
   Qed.
 
-  Definition pre_slash_state (st0 : St) (coinbase : N) (cands : list tx) : St :=
-    t_st _ _ _ (fold_left (build_step coinbase) cands (init_acc st0)).
-
-  (* outside the two finding classes (the importer's head is the parent; no
-     evidence is penalised with a zero total) every built block is accepted
-     unchanged, with the builder's state and receipts *)
-  Lemma builder_validator_holds_outside :
+  (* every built block is accepted unchanged, with the builder's state and receipts *)
+  Lemma builder_validator :
     forall sc sc' m m' st0 number coinbase cands pool b,
       sched_valid sc -> sched_valid sc' -> memo_valid resolve m -> memo_valid resolve m' ->
       build_block sc m st0 number coinbase cands pool = Done b ->
-      has_zero_penalty St lg resolve val_exists penalize m (number - 1)%N max_expired
-        (mkEacc St lg (pre_slash_state st0 coinbase cands) [] [] [] []) pool = false ->
-      process_block sc' m' (number - 1)%N st0 (b_header _ _ _ b) = Accepted _ _ (b_state _ _ _ b) (b_receipts _ _ _ b).
+      process_block sc' m' st0 (b_header _ _ _ b) = Accepted _ _ (b_state _ _ _ b) (b_receipts _ _ _ b).
   Proof.
-    intros sc sc' m m' st0 number coinbase cands pool b Hs Hs' Hm Hm' Hb Hz.
+    intros sc sc' m m' st0 number coinbase cands pool b Hs Hs' Hm Hm' Hb.
     unfold Model.build_block in Hb.
     set (a := fold_left (build_step coinbase) cands (init_acc st0)) in *.
-    set (ea := slashing St lg resolve val_exists penalize m (number - 1)%N max_expired (t_st _ _ _ a) pool) in *.
+    set (ea := slashing St lg resolve val_exists penalize m number max_expired (t_st _ _ _ a) pool) in *.
     destruct (end_rest sc (a_st _ _ ea) number coinbase (t_rew _ _ _ a) (t_txs _ _ _ a)) as [[[st3 endlogs] subsidy]|] eqn:Eend;
       [|discriminate].
     inversion Hb; subst b; clear Hb.
@@ -216,7 +192,7 @@ Section BlockProofs.
     pose proof (included_replay coinbase cands (init_acc st0) st0 eq_refl) as Hinc. cbn in Hinc.
     fold a in Hinc. rewrite Hinc.
     rewrite Z.eqb_refl. cbn [negb].
-    pose proof (replay_agrees St lg resolve val_exists penalize m m' (number - 1)%N max_expired (t_st _ _ _ a) pool Hm Hm' Hz) as Hr.
+    pose proof (replay_agrees St lg resolve val_exists penalize m m' number max_expired (t_st _ _ _ a) pool Hm Hm') as Hr.
     cbn in Hr. fold ea in Hr. destruct Hr as (Hr1 & Hr2 & Hr3).
     rewrite Hr1, Hr2.
     rewrite (end_rest_sched_free sc' sc); auto. rewrite Eend.
@@ -225,9 +201,8 @@ Section BlockProofs.
 End BlockProofs.
 
 (* ===================================================================== *)
-(* Witnesses for the two finding classes: a tiny concrete instance.        *)
-(* State = "validator 7 is expelled"; no transactions; rewards switched off *)
-(* (threshold 0, no gas) so that only the slashing step matters.            *)
+(* A concrete instance for the non-vacuity examples.                        *)
+(* State = "validator 7 is expelled".                                       *)
 
 Module Witness.
   Definition St := bool.
@@ -243,8 +218,9 @@ Module Witness.
   Definition commit (s : St) : N := if s then 1%N else 0%N.
   Definition rhash (l : list (receipt unit)) : N :=
     N.of_nat (length (concat (map r_logs l))) + 1000 * Z.to_N (fold_left (fun a r => a + r_cum r) l 0).
-  Definition ev : evid := mkEvid 0 true 2 4.
-  Definition ev_future : evid := mkEvid 1 true 2 6.
+  Definition ev : evid := mkEvid 0 true 2 true 4.
+  Definition ev_future : evid := mkEvid 1 true 2 true 6.
+  Definition ev_same_hash : evid := mkEvid 2 true 2 false 4.
 
   (* doPenalize that expels but takes nothing (dust validator) *)
   Definition penalize0 (_ : St) (_ : N) : St * Z * unit := (true, 0, tt).
@@ -257,23 +233,21 @@ Module Witness.
 
   Definition build pen :=
     build_block St N unit exec price resolve val_exists pen 5%N view apply_rewards true 9 5 (mkPR 3 3 4) 4%N
-                period_end commit rhash rhash id_sched (fun _ => None) false 5%N 9%N [3; 12; 4]%N [ev; ev_future; ev].
-  Definition process pen sc m head h :=
+                period_end commit rhash rhash id_sched (fun _ => None) false 5%N 9%N [3; 12; 4]%N
+                [ev_same_hash; ev; ev_future; ev].
+  Definition process pen sc m h :=
     process_block St N unit exec price resolve val_exists pen 5%N view apply_rewards true 9 5 (mkPR 3 3 4) 4%N
-                  period_end commit rhash rhash sc m head false h.
-  Definition no_zero pen :=
-    has_zero_penalty St unit resolve val_exists pen (fun _ => None) 4%N 5%N
-      (mkEacc St unit (pre_slash_state St N unit exec price false 9%N [3; 12; 4]%N) [] [] [] []) [ev; ev_future; ev].
+                  period_end commit rhash rhash sc m false h.
 
-  Lemma zero_penalty_block_rejected :
-    exists b, build penalize0 = Done b /\ process penalize0 id_sched (fun _ => None) 4%N (b_header _ _ _ b) = Rejected _ _.
-  Proof. eexists. split; [vm_compute; reflexivity|]. vm_compute. reflexivity. Qed.
-
+  (* two included transactions (one candidate skipped), one confirmed evidence,
+     one pending, one duplicate and one same-hash evidence dropped; built with one
+     schedule and an empty cache, processed with the reversed schedule and a
+     filled cache *)
   Lemma positive_penalty_block_accepted :
-    exists b, build penalize1 = Done b /\ no_zero penalize1 = false /\
-              length (h_txs (b_header _ _ _ b)) = 2%nat /\ length (h_slash (b_header _ _ _ b)) = 1%nat /\
-              b_pool _ _ _ b = [ev_future] /\
-              process penalize1 rev_sched memo0 4%N (b_header _ _ _ b) = Accepted _ _ (b_state _ _ _ b) (b_receipts _ _ _ b).
+    exists b, build penalize1 = Done b /\
+              length (h_txs (b_header _ _ _ b)) = 2%nat /\ h_slash (b_header _ _ _ b) = [ev] /\
+              b_pool _ _ _ b = [ev_future] /\ b_state _ _ _ b = true /\
+              process penalize1 rev_sched memo0 (b_header _ _ _ b) = Accepted _ _ (b_state _ _ _ b) (b_receipts _ _ _ b).
   Proof.
     eexists. split; [vm_compute; reflexivity|].
     split; [vm_compute; reflexivity|]. split; [vm_compute; reflexivity|].
@@ -281,9 +255,14 @@ Module Witness.
     vm_compute. reflexivity.
   Qed.
 
-  Lemma head_moved_block_rejected :
-    exists b, build penalize1 = Done b /\
-              process penalize1 id_sched (fun _ => None) 4%N (b_header _ _ _ b) <>
-              process penalize1 id_sched (fun _ => None) 5%N (b_header _ _ _ b).
-  Proof. eexists. split; [vm_compute; reflexivity|]. vm_compute. discriminate. Qed.
+  (* the former finding class: a zero-amount penalty still reaches the slash data
+     and the block is accepted *)
+  Lemma zero_penalty_block_accepted :
+    exists b, build penalize0 = Done b /\ h_slash (b_header _ _ _ b) = [ev] /\ b_state _ _ _ b = true /\
+              process penalize0 id_sched (fun _ => None) (b_header _ _ _ b) = Accepted _ _ (b_state _ _ _ b) (b_receipts _ _ _ b).
+  Proof.
+    eexists. split; [vm_compute; reflexivity|].
+    split; [vm_compute; reflexivity|]. split; [vm_compute; reflexivity|].
+    vm_compute. reflexivity.
+  Qed.
 End Witness.
